@@ -11,7 +11,7 @@ Init == i = 1
 Next == i <= Len(Rows) /\ i' = i + 1
 
 ErrClass(k) == CASE k \in {"new", "same", "copy", "fail"} -> "PlantedError" [] k = "smiss" -> "PathAccessError"
-                 [] k \in {"coal", "coalskip"} -> "CoalesceError" [] k \in {"switch", "mdict"} -> "MatchError" [] OTHER -> "GlomError"
+                 [] k \in {"coal", "coalskip"} -> "CoalesceError" [] k \in {"switch", "mdict", "not"} -> "MatchError" [] OTHER -> "GlomError"
 NumStr(n) == CASE n = 1 -> "1" [] n = 2 -> "2" [] n = 3 -> "3" [] n = 4 -> "4" [] n = 5 -> "5" [] n = 6 -> "6"
                [] n = 7 -> "7" [] n = 8 -> "8" [] n = 9 -> "9" [] OTHER -> "?"
 Verdict(r) ==
